@@ -55,6 +55,7 @@ static void havoc_state(void) {
 #endif
   g_io_calls = 0; g_ev_kind = EV_NONE; g_ev_file = 0; g_opens = 0; g_open_idx = -1; g_open_mode = 0; g_open_name = 0; g_ev_to_file = false; g_ev_byte = 0;
   __CPROVER_assume(cycles < (size_t)1 << 62);
+  hidden_havoc(); /* arbitrary loop-carried state (nothing on the pinned tree) */
 }
 
 /* Hoare triple for one iteration of run()'s loop against the ISA specification */
@@ -116,6 +117,53 @@ void h_step(void) {
 #endif
 }
 
+/* K consecutive iterations of run()'s loop, entered the way run() enters it (hidden_init), against the ISA applied K
+   times.  Bounded stand-in for the induction "whole run = repeated step" in the one respect h_step cannot see: state the
+   interpreter carries from one iteration to the next (a fetch buffer, a cached decode, ...).  Each iteration's expected
+   successor is computed from the actual current state, so the comparison stays one symbolic memory wide. */
+#ifndef KSTEPS
+#define KSTEPS 3
+#endif
+void h_ksteps(void) {
+  havoc_state();
+  hidden_init();
+  uint32_t cex_pc = pc, cex_areg = areg, cex_breg = breg, cex_oreg = oreg;
+  uint32_t cex_ra[KSTEPS][5], cex_rv[KSTEPS][5], cex_wa[KSTEPS]; int cex_inb[KSTEPS]; bool cex_wr[KSTEPS]; int cex_n = 0;
+  uint32_t k = nondet_u32(); __CPROVER_assume(k < MEMORY_SIZE_WORDS);
+  int prev_in = 0;
+  for (int i = 0; i < KSTEPS; i++) {
+    if (!running) break;
+    int in_i = nondet_int();
+    __CPROVER_assume(in_i >= -1 && in_i <= 255 && (prev_in != -1 || in_i == -1)); /* end of input is sticky */
+    prev_in = in_i; g_oracle_in = in_i; cex_inb[i] = in_i;
+    isa_state s = { pc, areg, breg, oreg, true, 0 };
+    isa_write w; isa_event ev; isa_status st;
+    isa_step(&s, memory, in_i, &w, &ev, &st);
+    __CPROVER_assume(st.defined && st.in_range);
+    __CPROVER_assume(!((ev.kind == EV_WRITE || ev.kind == EV_READ) && ev.to_file)); /* stream files: h_step */
+    uint32_t b = (memory[pc >> 2] >> ((pc & 3) << 3)) & 0xFF, opr = oreg | (b & 0xF), op = b >> 4;
+    uint32_t a2 = (op == 6) ? areg + opr : (op == 7 || op == 8) ? breg + opr : opr; if (a2 >= MEMORY_SIZE_WORDS) a2 = 1;
+    uint32_t spw = memory[1], a3 = spw + 2 < MEMORY_SIZE_WORDS ? spw + 2 : 1, a4 = spw + 3 < MEMORY_SIZE_WORDS ? spw + 3 : 1;
+    cex_ra[i][0] = pc >> 2; cex_ra[i][1] = 1; cex_ra[i][2] = a2; cex_ra[i][3] = a3; cex_ra[i][4] = a4;
+    for (int q = 0; q < 5; q++) cex_rv[i][q] = memory[cex_ra[i][q]];
+    cex_wr[i] = w.wr; cex_wa[i] = w.waddr; cex_n = i + 1;
+    uint32_t old_k = memory[k];
+    g_io_calls = 0; g_ev_kind = EV_NONE;
+    step();
+    __CPROVER_assert(!verif_thrown, "C02 (K steps): no error raised for a defined instruction");
+    __CPROVER_assert(pc == s.pc && areg == s.areg && breg == s.breg && oreg == s.oreg, "C02 (K steps): registers equal the ISA successor at every step of a run");
+    __CPROVER_assert(memory[k] == ((w.wr && w.waddr == k) ? w.wdata : old_k), "C02 (K steps): memory equals the ISA successor at every step of a run");
+    __CPROVER_assert(running == s.running && (s.running || exitCode == (int)s.exit_value), "C02 (K steps): exit behaviour equals the ISA at every step of a run");
+    __CPROVER_assert(g_io_calls == ((ev.kind == EV_WRITE || ev.kind == EV_READ) ? 1 : 0) && (ev.kind != EV_WRITE || g_ev_byte == ev.byte), "C02 (K steps): stream operations equal the ISA at every step of a run");
+  }
+#ifdef CANARY
+  __CPROVER_assert(0, "canary: harness end reachable");
+#endif
+#ifdef COVER_BY_ASSERT
+  COVER_GOAL(cex_n == KSTEPS && cex_wr[0] && cex_wa[0] == cex_ra[1][0]);
+#endif
+}
+
 /* run(): the loop executes while running and within the cycle limit; it returns exitCode */
 void h_run_loop(void) {
   havoc_state();
@@ -154,6 +202,7 @@ void X_step(XState *x, uint32_t *mem, int in_byte) {
   memory = mem; pc = x->pc; areg = x->areg; breg = x->breg; oreg = x->oreg; running = true; tracing = false; truncateInputs = true;
   verif_thrown = false; g_io_calls = 0; g_ev_kind = 0; g_ev_to_file = 0; g_ev_file = 0; g_ev_byte = 0; g_oracle_in = in_byte; exitCode = 0;
   for (int i = 0; i < 8; i++) connected[i] = true; /* no opens in the fidelity run */
+  hidden_init(); /* the real side enters run() anew for every step */
   step();
   x->pc = pc; x->areg = areg; x->breg = breg; x->oreg = oreg; x->running = running; x->exitCode = exitCode; x->thrown = verif_thrown;
   x->io_calls = g_io_calls; x->ev_kind = g_ev_kind; x->ev_to_file = g_ev_to_file; x->ev_file = g_ev_file; x->ev_byte = g_ev_byte;
@@ -220,6 +269,30 @@ static inline uint32_t debugInfoMap_lookup(const DebugEntry *e) { return e->seco
 """
 
 
+def hidden_text(chk, m, names):
+    text = ""
+    # hidden state: anything the interpreter carries from one step to the next beyond the architectural state the
+    # harnesses know about (extra scalar members of Processor, scalar locals of run() declared before its loop)
+    defaults = names.get("__defaults__", {})
+    extra = [(n, ty) for n, ty in names.items() if n not in KNOWN_FIELDS and n != "__defaults__" and ty in simx.SCALAR_TYPES.values()]
+    inits = dict(defaults)
+    if extra:
+        for n, v in simx.ctor_items(m):
+            if n in dict(extra) and v.replace(" ", "").replace("~", "").isalnum():
+                inits[n] = v.replace("~0U", "~0u")
+    loc = [x for x in m if isinstance(x, dict) and x.get("unit") == "Processor::run loop body"][-1].get("loop_carried_locals", [])
+    text += "#ifdef HEX_CBMC\n" + "".join("%s nondet_field_%s(void);\n" % (ty, n) for n, ty in extra)
+    text += "static void hidden_havoc(void) { run_locals_havoc();%s }\n#endif\n" % "".join(" %s = nondet_field_%s();" % (n, n) for n, ty in extra)
+    text += ("/* hidden state as at the entry of run() on a freshly constructed Processor; members the constructor leaves\n"
+             "   uninitialised keep whatever value they have */\n"
+             "static void hidden_init(void) { run_prologue();%s }\n" % "".join(" %s = %s;" % (n, inits[n]) for n, ty in extra if n in inits))
+    hidden = [n for n, ty in extra] + list(loc)
+    text += "#define HIDDEN_STATE_COUNT %d\n" % len(hidden)
+    m.append({"unit": "hidden interpreter state", "extra_members": [n for n, ty in extra], "run_locals": list(loc)})
+    chk.extra["hidden_state"] = hidden
+    return text
+
+
 def unit_text(chk, with_trace=False, with_load=False, lookup_contract=True, ctor=False, accessors=None):
     m = chk.manifest
     en, _ = asmx.enums(m)
@@ -238,7 +311,12 @@ def unit_text(chk, with_trace=False, with_load=False, lookup_contract=True, ctor
     if not with_trace:
         text += NO_TRACE_STUBS
     text += step + "#define RUN_COND (%s)\n#define RUN_RETURNS %s\n" % (cond, ret)
+    text += hidden_text(chk, m, names)
     return text
+
+
+KNOWN_FIELDS = {"pc", "areg", "breg", "oreg", "instr", "memory", "running", "tracing", "exitCode", "lastPC", "cycles", "maxCycles", "instrEnum",
+                "truncateInputs", "io", "out", "in", "debugInfo", "debugInfoMap"}
 
 
 def native_obj(chk, unit, name):
